@@ -113,6 +113,36 @@ func (g *cgen) leafSec(max int) *hu.Sec {
 	}
 }
 
+// comp (round 3) is Built.comp with the attribute field of the GUID-defined section varied: PROCESSING_REQUIRED
+// (bit 0) is what makes the tool decode and re-encode the section; the other fifteen bits (AUTH_STATUS_VALID = 2,
+// reserved ones) are data that a save keeps.  5 of 8 sections carry the usual 1.
+func (g *cgen) comp(codec, enc string, kids []*hu.Sec) *hu.Sec {
+	s := g.b.comp(codec, enc, kids)
+	switch g.r.Intn(8) {
+	case 0, 1:
+		s.Attrs = 3
+	case 2:
+		s.Attrs = []uint16{5, 0x41, 0x8001, 0xFFFF, 0x0103}[g.r.Intn(5)]
+	}
+	return s
+}
+
+// emptySec (round 3): a section that is its 4-byte header and nothing else.
+func (g *cgen) emptySec() *hu.Sec {
+	return &hu.Sec{Kind: "sl", Type: []uint8{0x19, 0x19, 0x18, 0x11, 0x12, 0x16}[g.r.Intn(6)]}
+}
+
+// withEmpty puts a header-only section behind the others (1 of `one` lists), rarely in front of them as well.
+func (g *cgen) withEmpty(secs []*hu.Sec, one int) []*hu.Sec {
+	if g.r.Intn(one) != 0 {
+		return secs
+	}
+	if g.r.Intn(4) == 0 {
+		secs = append([]*hu.Sec{g.emptySec()}, secs...)
+	}
+	return append(secs, g.emptySec())
+}
+
 func attrsFor(alignIdx int) uint8 { return uint8((alignIdx&7)<<3 | (alignIdx>>3)<<1) }
 
 func (g *cgen) fileAttrs(maxAlign int) uint8 {
@@ -157,9 +187,11 @@ func (g *cgen) driver(max, maxAlign int, wrap, enc string) *hu.File {
 	for k := g.r.Intn(3); k > 0; k-- {
 		secs = append(secs, g.leafSec(max/2))
 	}
+	// the last section of the list (of the decoded payload, or of the file) is header-only
+	secs = g.withEmpty(secs, 6)
 	f := &hu.File{Kind: "fs", GUID: g.guid(), Type: []uint8{7, 7, 7, 9, 5, 2, 10}[g.r.Intn(7)], Attrs: g.fileAttrs(maxAlign), State: 0xF8}
 	if wrap != "" {
-		c := g.b.comp(wrap, enc, secs)
+		c := g.comp(wrap, enc, secs)
 		f.Secs = []*hu.Sec{c}
 		if g.r.Intn(3) == 0 {
 			f.Secs = append([]*hu.Sec{{Kind: "su", Name: g.uiName()}}, f.Secs...)
@@ -256,6 +288,7 @@ func (g *cgen) chain(depth int, bodyMax int) (*hu.File, *hu.FV, []string) {
 		if g.r.Intn(4) == 0 {
 			kids = append(kids, g.leafSec(60))
 		}
+		kids = g.withEmpty(kids, 6)
 		codec := codecs[g.r.Intn(len(codecs))]
 		if g.r.Intn(6) == 0 {
 			codec = "" // this level is a bare volume image, not compressed
@@ -266,7 +299,7 @@ func (g *cgen) chain(depth int, bodyMax int) (*hu.File, *hu.FV, []string) {
 			used = append(used, "none")
 		} else {
 			enc := g.pick("xz", "go")
-			secs = []*hu.Sec{g.b.comp(codec, enc, kids)}
+			secs = []*hu.Sec{g.comp(codec, enc, kids)}
 			used = append(used, codec+"/"+enc)
 			if g.r.Intn(4) == 0 {
 				secs = append([]*hu.Sec{{Kind: "su", Name: g.uiName()}}, secs...)
@@ -323,7 +356,7 @@ func (g *cgen) build(sp *caseSpec) {
 		}
 		g.note = "perfile"
 	case "compincomp":
-		inner := g.b.comp(g.pick("LZMA", "LZMAX86", "ZLIB"), g.pick("xz", "go"), []*hu.Sec{g.leafSec(bodyMax), g.leafSec(40)})
+		inner := g.comp(g.pick("LZMA", "LZMAX86", "ZLIB"), g.pick("xz", "go"), g.withEmpty([]*hu.Sec{g.leafSec(bodyMax), g.leafSec(40)}, 4))
 		kids := []*hu.Sec{g.leafSec(40), inner}
 		if g.r.Intn(2) == 0 {
 			// the inner section is not the last child: its decoder sees the rest of the outer payload
@@ -331,20 +364,21 @@ func (g *cgen) build(sp *caseSpec) {
 				g.b.Comps[inner].Opaque = true
 			}
 			kids = append(kids, g.leafSec(40))
+			kids = g.withEmpty(kids, 4)
 		}
-		outer := g.b.comp(g.pick("LZMA", "LZMAX86"), g.pick("xz", "go"), kids)
+		outer := g.comp(g.pick("LZMA", "LZMAX86"), g.pick("xz", "go"), kids)
 		files = []*hu.File{g.leafFile(40, 0), {Kind: "fs", GUID: g.guid(), Type: 2, Attrs: g.fileAttrs(2), State: 0xF8, Secs: []*hu.Sec{outer}}}
 		g.note = "compincomp"
 	case "zlibtail":
 		// a ZLIB section that is not the last of its file: the decoder's size check sees the file tail
-		z := g.b.comp("ZLIB", "go", []*hu.Sec{g.leafSec(bodyMax), {Kind: "su", Name: g.uiName()}})
+		z := g.comp("ZLIB", "go", []*hu.Sec{g.leafSec(bodyMax), {Kind: "su", Name: g.uiName()}})
 		g.b.Comps[z].Opaque = true
 		f := &hu.File{Kind: "fs", GUID: g.guid(), Type: 2, Attrs: g.fileAttrs(0), State: 0xF8,
 			Secs: []*hu.Sec{z, {Kind: "sl", Type: 0x19, Body: g.body(1 + g.size(20))}}}
 		files = []*hu.File{f, g.driver(bodyMax, 2, "ZLIB", "go")}
 		g.note = "zlibtail"
 	case "corrupt":
-		c := g.b.comp(g.pick("LZMA", "LZMAX86"), g.pick("xz", "go"), []*hu.Sec{g.leafSec(bodyMax)})
+		c := g.comp(g.pick("LZMA", "LZMAX86"), g.pick("xz", "go"), []*hu.Sec{g.leafSec(bodyMax)})
 		// a stream the decoder refuses: the section stays opaque ("UNKNOWN") and is kept verbatim
 		c.Body[0] = 0xE1 // invalid LZMA properties byte (> 224)
 		g.b.Comps[c].Opaque = true
